@@ -9,38 +9,59 @@
 mod verif_buffer {
     use super::*;
 
-    fn any_buffer() -> (Buffer, [u8; MAX_SIZE]) {
-        let arr: [u8; MAX_SIZE] = kani::any();
-        let data: [MaybeUninit<u8>; MAX_SIZE] = unsafe { core::mem::transmute(arr) };
-        let b = Buffer { pos: kani::any(), bookmark: kani::any(), data };
+    // An arbitrary well-formed buffer: symbolic pos <= MAX_SIZE, symbolic bookmark. Its contents are tracked at ONE
+    // arbitrary absolute position `j` holding an arbitrary octet `w` (every other octet is left unwritten and is never
+    // read by a check): a frame statement proved for an arbitrary (j, w) holds for every octet of the old contents.
+    struct Old {
+        j: usize,
+        w: u8,
+    }
+    fn any_buffer(b: &mut Buffer) -> Old {
+        b.pos = kani::any();
+        b.bookmark = kani::any();
         kani::assume(b.pos <= MAX_SIZE); // wf
-        (b, arr)
+        let j: usize = kani::any();
+        let w: u8 = kani::any();
+        kani::assume(j < MAX_SIZE);
+        b.data[j].write(w);
+        Old { j, w }
+    }
+    // after an operation that moved the front from `pos` to b.pos: the tracked octet, if it was part of the old
+    // data [pos, MAX_SIZE), is still there (same absolute position, i.e. shifted index in data())
+    fn frame_ok(b: &Buffer, old: &Old, pos: usize) -> bool {
+        if old.j >= pos && b.pos <= pos {
+            let d = b.data();
+            d[old.j - b.pos] == old.w
+        } else {
+            true
+        }
     }
 
     // view(): data() has length MAX_SIZE - pos and exposes exactly octets [pos, MAX_SIZE)
     #[kani::proof]
     fn proof_buffer_data_view() {
-        let (mut b, arr) = any_buffer();
+        let mut b = Buffer::default();
+        let old = any_buffer(&mut b);
         let pos = b.pos;
         assert!(b.len() == MAX_SIZE - pos);
         assert!(b.free() == pos);
         assert!(b.is_empty() == (pos == MAX_SIZE));
         assert!(b.is_full() == (pos == 0));
-        let k: usize = kani::any();
         {
             let d = b.data();
             assert!(d.len() == MAX_SIZE - pos);
-            if k < d.len() {
-                assert!(d[k] == arr[pos + k]);
+            if old.j >= pos {
+                assert!(d[old.j - pos] == old.w);
             }
         }
         {
             let d = b.data_mut();
             assert!(d.len() == MAX_SIZE - pos);
-            if k < d.len() {
-                assert!(d[k] == arr[pos + k]);
-                let w: u8 = kani::any();
-                d[k] = w;
+            if old.j >= pos {
+                assert!(d[old.j - pos] == old.w);
+                let w2: u8 = kani::any();
+                d[old.j - pos] = w2;
+                assert!(d[old.j - pos] == w2);
             }
         }
         assert!(b.pos == pos);
@@ -52,7 +73,8 @@ mod verif_buffer {
 
     #[kani::proof]
     fn proof_buffer_push_u8() {
-        let (mut b, arr) = any_buffer();
+        let mut b = Buffer::default();
+        let old = any_buffer(&mut b);
         let (pos, bm) = (b.pos, b.bookmark);
         let v: u8 = kani::any();
         let r = b.push_u8(v);
@@ -63,11 +85,8 @@ mod verif_buffer {
         } else {
             assert!(r.is_ok());
             assert!(b.pos == pos - 1);
-            let k: usize = kani::any();
-            let d = b.data();
-            if k < d.len() {
-                assert!(d[k] == if k == 0 { v } else { arr[pos + k - 1] });
-            }
+            assert!(b.data()[0] == v);
+            assert!(frame_ok(&b, &old, pos));
         }
         kani::cover!(pos == 1);
     }
@@ -75,7 +94,8 @@ mod verif_buffer {
     // push: complete in pos, chunk length 0..=24 (bounded in the chunk length only)
     #[kani::proof]
     fn proof_buffer_push() {
-        let (mut b, arr) = any_buffer();
+        let mut b = Buffer::default();
+        let old = any_buffer(&mut b);
         let (pos, bm) = (b.pos, b.bookmark);
         let chunk: [u8; 24] = kani::any();
         let n: usize = kani::any();
@@ -89,10 +109,10 @@ mod verif_buffer {
             assert!(r.is_ok());
             assert!(b.pos == pos - n);
             let k: usize = kani::any();
-            let d = b.data();
-            if k < d.len() {
-                assert!(d[k] == if k < n { chunk[k] } else { arr[pos + k - n] });
+            if k < n {
+                assert!(b.data()[k] == chunk[k]);
             }
+            assert!(frame_ok(&b, &old, pos));
         }
         kani::cover!(n == 24 && pos == 24);
     }
@@ -113,7 +133,8 @@ mod verif_buffer {
 
     #[kani::proof]
     fn proof_buffer_push_tag_len() {
-        let (mut b, arr) = any_buffer();
+        let mut b = Buffer::default();
+        let old = any_buffer(&mut b);
         let (pos, bm) = (b.pos, b.bookmark);
         let tag: u8 = kani::any();
         let v: usize = kani::any();
@@ -128,10 +149,10 @@ mod verif_buffer {
             assert!(r.is_ok());
             assert!(b.pos == pos - hl);
             let k: usize = kani::any();
-            let d = b.data();
-            if k < d.len() {
-                assert!(d[k] == if k < hl { tag_len_ref(tag, v, k) } else { arr[pos + k - hl] });
+            if k < hl {
+                assert!(b.data()[k] == tag_len_ref(tag, v, k));
             }
+            assert!(frame_ok(&b, &old, pos));
         }
         kani::cover!(v == 256 && pos == 4);
         kani::cover!(v == 255 && pos == 3);
@@ -140,7 +161,8 @@ mod verif_buffer {
     // push_tagged: data length 0..=24; on Err the buffer is either untouched or holds the data without header
     #[kani::proof]
     fn proof_buffer_push_tagged() {
-        let (mut b, arr) = any_buffer();
+        let mut b = Buffer::default();
+        let old = any_buffer(&mut b);
         let (pos, bm) = (b.pos, b.bookmark);
         let tag: u8 = kani::any();
         let chunk: [u8; 24] = kani::any();
@@ -156,28 +178,27 @@ mod verif_buffer {
             assert!(r.is_ok());
             assert!(b.pos == pos - n - hl);
             let k: usize = kani::any();
-            let d = b.data();
-            if k < d.len() {
-                assert!(d[k] == if k < hl { tag_len_ref(tag, n, k) } else if k < hl + n { chunk[k - hl] } else { arr[pos + k - hl - n] });
+            if k < hl {
+                assert!(b.data()[k] == tag_len_ref(tag, n, k));
+            } else if k < hl + n {
+                assert!(b.data()[k] == chunk[k - hl]);
             }
+            assert!(frame_ok(&b, &old, pos));
         }
         kani::cover!(n == 24);
     }
 
     #[kani::proof]
     fn proof_buffer_skip_reset_bookmark() {
-        let (mut b, arr) = any_buffer();
+        let mut b = Buffer::default();
+        let old = any_buffer(&mut b);
         let (pos, bm) = (b.pos, b.bookmark);
         let size: usize = kani::any();
         b.skip(size);
         assert!(b.bookmark == bm);
         assert!(b.pos == if pos < size { 0 } else { pos - size });
         // the old data is the suffix of the new data
-        let k: usize = kani::any();
-        if k < MAX_SIZE - pos {
-            let d = b.data();
-            assert!(d[d.len() - (MAX_SIZE - pos) + k] == arr[pos + k]);
-        }
+        assert!(frame_ok(&b, &old, pos));
         let p2 = b.pos;
         let delta: usize = kani::any();
         kani::assume(delta <= MAX_SIZE - p2);
@@ -199,7 +220,8 @@ mod verif_buffer {
             let raw: &mut [MaybeUninit<u8>] = b.as_mut();
             assert!(raw.len() == MAX_SIZE);
         }
-        let (mut c, arr) = any_buffer();
+        let mut c = Buffer::default();
+        let old = any_buffer(&mut c);
         let pos = c.pos;
         {
             let m: &mut [u8] = c.as_mut();
@@ -210,9 +232,8 @@ mod verif_buffer {
         kani::assume(len <= MAX_SIZE);
         let s = c.as_slice(len);
         assert!(s.len() == len);
-        let k: usize = kani::any();
-        if k < len {
-            assert!(s[k] == arr[k]);
+        if old.j < len {
+            assert!(s[old.j] == old.w);
         }
     }
 }
